@@ -181,14 +181,16 @@ Definition covered (s : st) (sidecar : bool) (fi : nat) (key i : Z) : Prop :=
 Record Inv (s : st) : Prop := {
   i_files : forall f, In f (active s) -> file_ok f;
   i_keys  : forall f, In f (active s) ->
-              exists mf, nth_error (manifest s) (fs_fi f) = Some mf /\ m_key mf = fs_key f;
+              exists mf, nth_error (manifest s) (fs_fi f) = Some mf /\ m_key mf = fs_key f /\
+                         recvTotalChunks (m_size mf) (fs_cs f) = Ret (fs_total f);
   i_prov  : forall f i, In f (active s) -> In i (fs_have f) -> covered s (fs_sidecar f) (fs_fi f) (fs_key f) i;
   i_fins  : forall r, In r (fins s) -> fr_ok r = true -> 0 < fr_total r ->
               Z.of_nat (length (fr_have r)) = fr_total r /\
               (forall i, In i (fr_have r) -> 0 <= i < fr_total r) /\
               (fr_sidecar r = true -> NoDup (fr_have r));
   i_fkeys : forall r, In r (fins s) ->
-              exists mf, nth_error (manifest s) (fr_fi r) = Some mf /\ m_key mf = fr_key r;
+              exists mf, nth_error (manifest s) (fr_fi r) = Some mf /\ m_key mf = fr_key r /\
+                         recvTotalChunks (m_size mf) (fr_cs r) = Ret (fr_total r);
   i_fprov : forall r i, In r (fins s) -> In i (fr_have r) -> covered s (fr_sidecar r) (fr_fi r) (fr_key r) i;
   i_count : completed s = Z.of_nat (length (filter fr_ok (fins s)));
   i_perm  : Permutation (map fr_fi (fins s) ++ map fs_fi (active s)) (begun s);
@@ -270,17 +272,17 @@ Qed.
 
 Lemma Inv_upd_active s f f' :
   Inv s -> find_active (fs_key f') (active s) = Some f ->
-  fs_fi f' = fs_fi f -> fs_sidecar f' = fs_sidecar f ->
+  fs_fi f' = fs_fi f -> fs_sidecar f' = fs_sidecar f -> fs_cs f' = fs_cs f -> fs_total f' = fs_total f ->
   file_ok f' ->
   (forall i, In i (fs_have f') -> covered s (fs_sidecar f') (fs_fi f') (fs_key f') i) ->
   Inv (upd_active s f').
 Proof.
-  intros H Hfind Hfi Hsc Hok Hprov. destruct H.
+  intros H Hfind Hfi Hsc Hcs Htot Hok Hprov. destruct H.
   destruct (find_active_in _ _ _ Hfind) as (Hin & Hk).
   constructor; simpl.
   - intros g Hg. apply in_replace_active in Hg. destruct Hg as [E|Hg]; [subst g; exact Hok|apply i_files0; exact Hg].
   - intros g Hg. apply in_replace_active in Hg. destruct Hg as [E|Hg]; [subst g|apply i_keys0; exact Hg].
-    rewrite Hfi, <- Hk. apply i_keys0. exact Hin.
+    rewrite Hfi, Hcs, Htot, <- Hk. apply i_keys0. exact Hin.
   - intros g i Hg Hi. apply in_replace_active in Hg. destruct Hg as [E|Hg]; [subst g; apply Hprov; exact Hi|].
     apply i_prov0; assumption.
   - exact i_fins0.
@@ -360,7 +362,7 @@ Qed.
 
 Lemma mark_fields f i :
   fs_key (mark f i) = fs_key f /\ fs_fi (mark f i) = fs_fi f /\ fs_sidecar (mark f i) = fs_sidecar f /\
-  fs_total (mark f i) = fs_total f /\
+  fs_total (mark f i) = fs_total f /\ fs_cs (mark f i) = fs_cs f /\
   (forall j, In j (fs_have (mark f i)) -> In j (fs_have f) \/ j = i).
 Proof.
   unfold mark. destruct (fs_sidecar f) eqn:S.
@@ -398,14 +400,16 @@ Proof.
     destruct (fs_cs f =? 0); [apply Inv_set_result; [exact H|discriminate]|].
     destruct (negb crc_ok); [apply Inv_reader_fail; auto|].
     destruct (negb io); [apply Inv_reader_fail; auto|].
-    destruct (mark_fields f idx) as (Mk & Mfi & Msc & Mt & Mh).
+    destruct (mark_fields f idx) as (Mk & Mfi & Msc & Mt & Mcs & Mh).
     simpl in Wit. destruct Wit as (Wi & Wl).
     assert (Inv (with_inq (upd_active (add_write s (key, idx, len, tok)) (mark f idx)) n rest false)) as H2.
     { apply Inv_with_inq; [|exact Wrest].
-      apply (Inv_upd_active _ f); [apply Inv_add_write; exact H| | | | |].
+      apply (Inv_upd_active _ f); [apply Inv_add_write; exact H| | | | | | |].
       - simpl. rewrite Mk. exact F'.
       - exact Mfi.
       - exact Msc.
+      - exact Mcs.
+      - exact Mt.
       - apply mark_ok; [apply (i_files s H); exact Fin|exact Wi|].
         intros T. apply andb_false_iff in C1. destruct C1 as [C|C]; lia.
       - intros j Hj. rewrite Mk, Mfi, Msc. destruct (Mh j Hj) as [Hj' | ->].
@@ -436,7 +440,8 @@ Proof.
   destruct (negb pathok); [apply Inv_set_result; [exact H|discriminate]|].
   destruct fi as [i|]; [|apply Inv_set_result; [exact H|discriminate]].
   destruct (nth_error (manifest s) i) as [mf|] eqn:N; [|apply Inv_set_result; [exact H|discriminate]].
-  destruct (negb (m_size mf =? size)); [apply Inv_set_result; [exact H|discriminate]|].
+  destruct (negb (m_size mf =? size)) eqn:Esz; [apply Inv_set_result; [exact H|discriminate]|].
+  apply negb_false_iff, Z.eqb_eq in Esz.
   destruct ((cs =? 0) || (c_maxChunkSize <? cs)); [apply Inv_set_result; [exact H|discriminate]|].
   destruct (negb (sid =? 0) && negb (sid =? m_key mf)); [apply Inv_set_result; [exact H|discriminate]|].
   destruct (find_active (m_key mf) (active s)) eqn:F; [apply Inv_set_result; [exact H|discriminate]|].
@@ -452,7 +457,8 @@ Proof.
   { destruct H. constructor; simpl; auto.
     - intros g Hg. apply in_app_or in Hg. destruct Hg as [Hg|[<-|[]]]; [auto|].
       apply (new_file_ok (prior s) i size cs total sc); [exact W|exact T].
-    - intros g Hg. apply in_app_or in Hg. destruct Hg as [Hg|[<-|[]]]; [auto|]. simpl. eauto.
+    - intros g Hg. apply in_app_or in Hg. destruct Hg as [Hg|[<-|[]]]; [auto|]. simpl.
+      exists mf. split; [exact N|]. split; [reflexivity|]. rewrite Esz. exact T.
     - intros g j Hg Hj. apply in_app_or in Hg. destruct Hg as [Hg|[<-|[]]]; [apply i_prov0; auto|].
       simpl in *. left. unfold have in Hj. destruct sc; [auto|destruct Hj].
     - rewrite map_app. simpl. rewrite app_assoc. apply Permutation_app_tail. exact i_perm0. }
@@ -632,7 +638,7 @@ Proof.
     apply NoDup_app_l in N2. exact N2. }
   assert (forall x, In x L -> (x < length m)%nat) as B.
   { intros x Hx. apply in_map_iff in Hx. destruct Hx as (r & <- & Hr). apply filter_In in Hr.
-    destruct (i_fkeys s H r (proj1 Hr)) as (mf & N & _). rewrite Em in N.
+    destruct (i_fkeys s H r (proj1 Hr)) as (mf & N & _ & _). rewrite Em in N.
     apply nth_error_Some. rewrite N. discriminate. }
   assert (length m <= length L)%nat as LL.
   { unfold L. rewrite map_length. lia. }
@@ -657,14 +663,18 @@ Proof.
   apply (full_range _ (fr_total r)); auto. destruct Hnd; auto.
 Qed.
 
-(* keys of finalizations are the manifest's keys *)
+(* keys and chunk counts of finalizations are the manifest's: the count is the
+   generated expression applied to the size in the manifest and the announced
+   chunk size *)
 Theorem finalized_key m res pr evs : Forall (wf_ev pr) evs ->
   let s := run (init m res pr) evs in
-  forall r, In r (fins s) -> exists mf, nth_error m (fr_fi r) = Some mf /\ m_key mf = fr_key r.
+  forall r, In r (fins s) ->
+    exists mf, nth_error m (fr_fi r) = Some mf /\ m_key mf = fr_key r /\
+               recvTotalChunks (m_size mf) (fr_cs r) = Ret (fr_total r).
 Proof.
   intros W s r Hr. pose proof (Inv_reachable m res pr evs W) as H. fold s in H.
   destruct (run_consts evs (init m res pr)) as (_ & Em). fold s in Em. simpl in Em.
-  destruct (i_fkeys s H r Hr) as (mf & N & K). rewrite Em in N. eauto.
+  destruct (i_fkeys s H r Hr) as (mf & N & K & T). rewrite Em in N. eauto.
 Qed.
 
 (* a failed finalization is never counted and success needs the counter: a
